@@ -9,7 +9,7 @@ request's OID octets occur nowhere in the datagram.  Four sessions cross the cou
 verif_set_salt hook): the salt after ff..ff is 00..00, still unique within the installation."""
 import json, random
 from vlib import trace, scripts, v3hist, tlc
-from vlib.report import Check
+from vlib.report import Check, confirm_by_replay
 from vlib.env import SEED
 from checks import c11
 
@@ -72,13 +72,13 @@ def run(tier):
         s += [{"a": "set-salt", "v": top - 1}, {"a": "send", "n": 8}, {"a": "send", "n": 5}, {"a": "reply-enc"}, {"a": "send", "n": 40}]
         a, b = v3hist.run_history(rec, std[cn], s, variant=i)
         runs.append((a, b, dict(cfgname=cn, n=0, seed=SEED, index=100 + i, wrap=True, script=s)))
+    # public-API histories of privacy users: discovery datagrams lost, enter / refresh retried, then requests - every request that
+    # leaves afterwards must still be the configured user's (priv flag, encrypted scoped PDU), not the key-less default user's
+    from checks import c13
+    nlong = len(runs)
+    runs += c13.lost_discovery_histories(rec, [("md5", "des", "password"), ("sha1", "aes", "password"), ("md5", "aes", "master"), ("sha1", "des", "localized")], thorough, base_idx=700)
     rec.close()
     nmsg = sum(1 for e in rec.events if e["ev"] == "Send" and not e.get("exc"))
-    salts = set()
-    for (a, b, info) in runs:
-        for e in rec.events[a:b]:
-            if e["ev"] == "Send" and e.get("wire"):
-                salts.add((info["index"], bytes(e["wire"][-0:]).hex()[:0] + str(len(salts))))
     print("  %d sessions, %d messages, %d events" % (len(runs), nmsg, rec.n), flush=True)
     v = trace.validate_parallel("TraceSession.tla", c11.trace_cfg(PROPS), rec.events, [(a, b) for a, b, _ in runs], k=nsess, name="c14")
     for i, r in enumerate(v["results"]):
@@ -94,6 +94,12 @@ def run(tier):
             ri += 1
         a, b, info = runs[ri]
         ev = rec.events[idx]
+        if info.get("api_history"):
+            chk.violation(dict(kind="api-history", client=info["kind"], ev=ev["ev"], op=ev.get("op"), got=ev.get("exc") or "ok"),
+                          "%s session configured with auth=%s priv=%s, calls %s with datagrams %s lost: %s (%s) %s - a request left that is not the configured privacy user's" %
+                          (info["kind"], info["auth"], info["priv"], info["calls"], [k for k, p in enumerate(info["plan"]) if p == "drop"], ev["ev"], ev.get("op"), ev.get("exc") or ""),
+                          dict(info=info), confirm=confirm_by_replay(c13.replay, dict(info=info)))
+            continue
         cipher = "des" if "des" in info["cfgname"] else "aes"
         chk.violation(dict(cipher=cipher, ev=ev["ev"], got=ev.get("exc") or "sent"),
                       "%s session %d: event %d %s %s" % (info["cfgname"], info["index"], idx - a, ev["ev"], ev.get("exc") or ""),
@@ -105,8 +111,14 @@ def run(tier):
 
 def replay(path):
     d = json.load(open(path))
-    print(json.dumps(d["replay"]["info"]))
     info = d["replay"]["info"]
+    if info.get("api_history"):
+        from checks import c13
+        rc = c13.replay(path)
+        if rc == 1:
+            print("VIOLATION property=C14 replay=%s" % path)
+        return rc
+    print(json.dumps(d["replay"]["info"]))
     rng = random.Random(info["seed"])
     std = scripts.std_cfgs()
     rec = trace.Recorder("c14-replay")
